@@ -37,8 +37,9 @@ def reach(nodes: list[dict]) -> dict[str, set[str]]:
 def convex_subset(rng: random.Random, nodes: list[dict]) -> list[str]:
     r = reach(nodes)
     names = [n["name"] for n in nodes]
-    s = {rng.choice(names)}
-    for _ in range(rng.randint(0, 3)):
+    middle = [x for x in names if r[x] and any(x in r[y] for y in names)]      # has both a predecessor and a successor
+    s = {rng.choice(middle or names)}
+    for _ in range(rng.choice([0, 0, 1, 1, 2])):
         s.add(rng.choice(names))
     changed = True
     while changed:                      # close under "lies on a path between two members"
@@ -231,6 +232,9 @@ class C05(Prop):
 
     def sample(self, case: dict, obs: Any) -> Any:
         return {"flat": case["flat"], "nested": case["nested"], "values": case["values"], "cuts": case["cuts"]}
+
+    def expand_fixed(self, case: dict) -> list[dict]:
+        return [dict(case, runner=r) for r in ("sync", "async")] if "runner" not in case else [case]
 
     def neighbours(self, case: dict, rng: random.Random) -> Iterable[dict]:
         yield from self.cases(rng, "quick")
